@@ -88,6 +88,114 @@ func normalizeIfaceKeys(w *World, sp *Specs) error {
 }
 
 func (x *Exec) doCall(st *State, in *ssa.Call) (forks []*State, done bool) {
+	pre := st.snap()
+	nframes := len(st.frames)
+	forks, done = x.doCall1(st, in)
+	if len(st.frames) == nframes && !st.dead {
+		// the call was summarised (contract or havoc), not entered: variables of the running functions whose address has not
+		// escaped yet cannot have been written by it
+		x.restoreUnescapedCells(st, pre, in)
+	}
+	return forks, done
+}
+
+// restoreUnescapedCells: a heap-allocated local (its address is taken somewhere in the function, e.g. captured by a closure later
+// on) lives in a cell heap that a summarised call may have forgotten. If no instruction that lets the address escape can have
+// executed before the call, the callee cannot know the address: the cell keeps its value.
+func (x *Exec) restoreUnescapedCells(st *State, pre *HeapSnap, in ssa.Instruction) {
+	at := in
+	for fi := len(st.frames) - 1; fi >= 0; fi-- {
+		f := st.frames[fi]
+		for v, pv := range f.vals {
+			a, ok := v.(*ssa.Alloc)
+			if !ok || !a.Heap {
+				continue
+			}
+			p, ok := pv.(*PtrV)
+			if !ok || p.Kind != PRef || p.Global != nil {
+				continue
+			}
+			t := a.Type().(*types.Pointer).Elem()
+			if _, isS := isStructType(t); isS {
+				continue
+			}
+			if _, isArr := t.Underlying().(*types.Array); isArr {
+				continue
+			}
+			if escapedBefore(a, at) {
+				continue
+			}
+			for _, c := range comps(t) {
+				name := cellHeapName(t, c.Suffix)
+				srt := arrSort(SInt, c.Sort)
+				cur, was := st.getHeap(name, srt), pre.getHeap(name, srt)
+				if cur.String() == was.String() {
+					continue
+				}
+				x.assumeIn(st, mkEq(mkSelect(cur, p.Ref), mkSelect(was, p.Ref)))
+			}
+		}
+		if f.call == nil {
+			break
+		}
+		at = f.call
+	}
+}
+
+// escapedBefore: some instruction that uses the alloc's address other than to load from or store to it can execute before `at`.
+func escapedBefore(a *ssa.Alloc, at ssa.Instruction) bool {
+	refs := a.Referrers()
+	if refs == nil {
+		return true
+	}
+	ab := at.Block()
+	if ab == nil || ab.Parent() != a.Parent() {
+		return true
+	}
+	for _, r := range *refs {
+		switch r := r.(type) {
+		case *ssa.Store:
+			if r.Addr == a && r.Val != a {
+				continue
+			}
+		case *ssa.UnOp:
+			if r.X == a {
+				continue
+			}
+		case *ssa.DebugRef:
+			continue
+		}
+		rb := r.Block()
+		if rb == ab {
+			for _, i := range ab.Instrs {
+				if i == r {
+					return true // earlier in the same block
+				}
+				if i == at {
+					break
+				}
+			}
+		}
+		// reachable through at least one edge?
+		seen := map[*ssa.BasicBlock]bool{}
+		work := append([]*ssa.BasicBlock(nil), rb.Succs...)
+		for len(work) > 0 {
+			b := work[len(work)-1]
+			work = work[:len(work)-1]
+			if seen[b] {
+				continue
+			}
+			seen[b] = true
+			if b == ab {
+				return true
+			}
+			work = append(work, b.Succs...)
+		}
+	}
+	return false
+}
+
+func (x *Exec) doCall1(st *State, in *ssa.Call) (forks []*State, done bool) {
 	fr := st.frame()
 	c := in.Call
 	var args []Value
@@ -957,6 +1065,8 @@ func (x *Exec) doAppend(st *State, in *ssa.Call, args []Value) Value {
 		if n, ok := isLitInt(addLen); ok && n == 1 && src != nil {
 			// the common case is quantifier free for the appended element
 			x.assume(mkEq(mkSelect(row, mkAdd(res.Off, s.Len)), mkSelect(mkSelect(h, src.Arr), src.Off)))
+			// in place, the new row is exactly the old row with one element stored (array theory instead of quantifiers)
+			x.assume(mkImplies(fits, mkEq(row, mkStore(oldRow, mkAdd(s.Off, s.Len), mkSelect(mkSelect(h, src.Arr), src.Off)))))
 		}
 		x.assume(mkForall([]*Term{i}, body))
 		x.assume(mkForall([]*Term{j}, outside))
